@@ -1,10 +1,10 @@
 CONSTANTS
-  MinItems = 0
-  NC = 3
-  L = 3
-  MaxItems = 5
-  MaxPerChrom = 2
-  IPS = {1, 2}
+  MinItems = 5
+  NC = 2
+  L = 8
+  MaxItems = 8
+  MaxPerChrom = 7
+  IPS = {1}
   ZoomLists = "c"
   EndSlack = 1
 INIT Init
